@@ -66,3 +66,11 @@ Fixpoint inner_empty (s : wst) : bool :=
   | WBatched _ u => all_empty u
   | WErr _ _ u | WSkip _ u | WNoKey u | WRO u | WSkipErr _ u | WFall _ u | WCached u => inner_empty u
   end.
+
+(* the keys some skipkeys layer of the stack hides *)
+Fixpoint hidden (s : wst) (k : key) : bool :=
+  match s with
+  | WBase _ | WNull => false
+  | WSkip p u => has_prefix p k || hidden u k
+  | WErr _ _ u | WBatched _ u | WNoKey u | WRO u | WSkipErr _ u | WFall _ u | WCached u => hidden u k
+  end.
